@@ -52,6 +52,8 @@ def main(tier=None, replay=None):
     from hiten import System
     from hiten.algorithms.common.energy import crtbp_energy
     from hiten.algorithms.polynomial.base import _init_index_tables
+    import numba
+    numba.set_num_threads(min(2, numba.get_num_threads()))     # many tiny parallel kernels: thread wake-ups dominate otherwise
     if replay:
         d = json.load(open(replay))["data"]
         print(json.dumps(d, indent=1, default=str)[:3000])
@@ -84,7 +86,7 @@ def main(tier=None, replay=None):
             t = cs.trace(label, {"round_trip_law_excess": -100, "energy_law_excess": -100, "round_trip_small": -85, "energy_small": -80}, c)
             ck.count(("cm-dir", label), True)
             rt, en = [], []
-            for r_ in (0.02, 0.04, 0.08, 0.16):
+            for r_ in ((0.02, 0.04, 0.08) if ck.quick else (0.02, 0.04, 0.08, 0.16)):
                 p = r_ * d
                 s = np.asarray(cm.to_synodic(p), dtype=float)
                 back = np.asarray(cm.to_cm(s), dtype=float)
